@@ -260,7 +260,7 @@ pub fn run(ctx: &Ctx) -> Vec<Eng> {
             a
         });
     }
-    let (hz, k) = if ctx.thorough { (64, 3) } else { (24, 2) };
+    let (hz, k) = if ctx.thorough { (64, 3) } else { (40, 2) };
     let mut e2 = Eng::new(
         "c12-deviations",
         "all histories of exactly H events differing from the default stream P(0.5 s, cycle {-4,1,10}) in at most k positions, deviations {N, E1, P(+0), P(+1ns), P(+3s), P(+1h)}; 8 filter configurations",
